@@ -41,7 +41,8 @@ LABELS = ["chat", "", "héllo✓", "数据通道", "a" * 40, "\U0001F600x"]
 def complete_unordered_waiting(transport):
     """stream ids whose reassembly queue holds a COMPLETE unordered message (B .. E with consecutive TSNs) that has not
     been handed to the application: InboundStream.pop_messages skipped it because it followed an incomplete run of
-    fragments, and nothing looked at the queue again after those fragments were pruned (finding K11)"""
+    fragments, and nothing looked at the queue again after those fragments were pruned (a defect of pop_messages repaired
+    in /repo; the oracles of C05 / C06 name it should it come back)"""
     out = []
     for sid, st in transport._inbound_streams.items():
         chunks = list(st.reassembly)
